@@ -18,19 +18,19 @@ def c01(tier, seed):
 
 
 def _c01(tier, seed):
-    return combine(fam_list(tier, ['core_q', 'edge_q', 'frac_q', 'split_q', 'split5_q', 'split2_q', 'order_q', 'two_q', 'two_split_q', 'two_fills_q', 'matcher_q', 'lines_q', 'lines4_q'], ['core_t', 'split_t', 'sim_t', 'matcher_t', 'matcher_sim_t', 'lines_t', 'lines5_t']) + [trace_family(tier, seed)], 'multi_leg_disposals',
+    return combine(fam_list(tier, ['core_q', 'edge_q', 'frac_q', 'split_q', 'split5_q', 'split2_q', 'order_q', 'two_q', 'two_split_q', 'two_fills_q', 'matcher_q', 'lines_q', 'lines4_q', 'lines_splits_q'], ['core_t', 'split_t', 'sim_t', 'matcher_t', 'matcher_sim_t', 'lines_t', 'lines5_t']) + [trace_family(tier, seed)], 'multi_leg_disposals',
                    'every cell ledger of the family (TLC-enumerated) x base dates; non-trivial = ledgers with a disposal '
                    'identified by two or more legs')
 
 
 def c02(tier, seed):
-    return combine(fam_list(tier, ['core_q', 'frac_q', 'split_q', 'split5_q', 'split2_q', 'two_split_q', 'lines_q'], ['core_t', 'split_t', 'events_q', 'sim_t', 'lines_t']) + [trace_family(tier, seed), cli_family(tier)], 'covered',
+    return combine(fam_list(tier, ['core_q', 'frac_q', 'split_q', 'split5_q', 'split2_q', 'two_split_q', 'lines_q', 'lines_splits_q'], ['core_t', 'split_t', 'events_q', 'sim_t', 'lines_t']) + [trace_family(tier, seed), cli_family(tier)], 'covered',
                    'every cell ledger of the family; non-trivial = accepted (covered) ledgers, on which the three '
                    'conservation equalities are evaluated on the implementation\'s own report')
 
 
 def c03(tier, seed):
-    return combine(fam_list(tier, ['core_q', 'split_q', 'events_q', 'events_split_q'], ['core_t', 'split_t', 'events_t', 'events_split_t']) + [fx_family(tier), trace_family(tier, seed), cli_family(tier)], ['covered', 'multi_foreign_field'],
+    return combine(fam_list(tier, ['core_q', 'split_q', 'events_q', 'events_split_q', 'lines_fills_q', 'lines4_q'], ['core_t', 'split_t', 'events_t', 'events_split_t']) + [fx_family(tier), trace_family(tier, seed), cli_family(tier)], ['covered', 'multi_foreign_field'],
                    'every cell ledger of the family; non-trivial = accepted ledgers (legs + closing cost vs expenditure); '
                    'for ledgers with capital events TLC re-runs the specification on the observed apportionment')
 
@@ -42,7 +42,7 @@ def c05(tier, seed):
 
 
 def c06(tier, seed):
-    return combine(fam_list(tier, ['order_q', 'order_split_q', 'two_q', 'two_fills_q', 'events_order_q', 'lines_q', 'lines4_q'], ['order_t', 'two_t', 'lines_t', 'lines5_t']) + [cli_family(tier), fx_family(tier)], ['variant_comparisons', 'partitions', 'fx_line_orders'],
+    return combine(fam_list(tier, ['order_q', 'order_split_q', 'two_q', 'two_fills_q', 'events_order_q', 'lines_q', 'lines4_q', 'lines_fills_q'], ['order_t', 'two_t', 'lines_t', 'lines5_t']) + [cli_family(tier), fx_family(tier)], ['variant_comparisons', 'partitions', 'fx_line_orders'],
                    'every cell ledger of the family rendered in canonical order and as reversed / sells-first / '
                    'actions-first / two seeded shuffles / adjacent and separated half fills / lower-case tickers; '
                    'non-trivial = implementation-vs-implementation comparisons of a variant with the canonical rendering',
@@ -71,7 +71,7 @@ def laws(tier, quick, thorough):
 
 
 def c10(tier, seed):
-    return combine(laws(tier, ['rescale_q', 'rescale_two_q', 'rescale_events_q', 'unsplit_q'], ['rescale_t', 'rescale5_t', 'unsplit_t']) + fam_list(tier, ['split_q', 'split2_q', 'two_split_q', 'events_split_q'], ['split_t', 'events_split_t']),
+    return combine(laws(tier, ['rescale_q', 'rescale_two_q', 'rescale_events_q', 'unsplit_q'], ['rescale_t', 'rescale5_t', 'unsplit_t']) + fam_list(tier, ['split_q', 'split2_q', 'two_split_q', 'events_split_q', 'lines_splits_q'], ['split_t', 'events_split_t']),
                    ['nontrivial', 'with_splits'],
                    'pairs (ledger with one split at every position, same ledger rewritten in post-split units) and (ledger, '
                    'ledger + SPLIT f .. UNSPLIT f with no trade between): TLC checks the law between the two specification '
